@@ -980,7 +980,12 @@ class Interp:
                 if ps is None:
                     continue
                 if ps[0] == 'assign':
-                    self.assign(fr, st, ps[1], self.rvalue(fr, st, ps[2]))
+                    try:
+                        self.assign(fr, st, ps[1], self.rvalue(fr, st, ps[2]))
+                    except Unsupported as e:
+                        if ' (at ' not in str(e) and '(in ' not in str(e):
+                            raise Unsupported(f'{e} (at `{s.strip()[:120]}` in {f.name})') from None
+                        raise
                 else:   # setdiscr
                     a, pr = self.loc(fr, st, ps[1])
                     cur = project(st.store[a], pr)
